@@ -160,6 +160,10 @@ class Writer:
         f = self.fault('settings:' + ctx)
         if f == 'empty':
             return '[]'
+        if f == 'twolists':      # a second complete settings list after the first one
+            cut = self.rng.randint(1, len(items) - 1) if len(items) > 1 else 1
+            a, b = list(items[:cut]), list(items[cut:]) or list(items)
+            return '[' + ', '.join(a) + ']' + self.rng.choice([' ', '', '  ']) + '[' + ', '.join(b) + ']'
         if f and f.startswith('unknown'):
             items = list(items)
             what = {'unknown': 'zzzunknownsetting', 'unknown-kv-string': "zzzunk: 'value'", 'unknown-kv-word': 'zzzunk: value',
